@@ -101,12 +101,15 @@ func (odsq4 *ODSQ4) tryLoadQ4() *q4 {
 	// even if error occurred, store q4 opened bool to avoid trying to open it again
 	odsq4.q4OpenAttempted.Store(true)
 	if errors.Is(err, os.ErrNotExist) {
+		verifMark("q4.open", odsq4.pathQ4, 0)
 		return nil
 	}
 	if err != nil {
+		verifMark("q4.open", odsq4.pathQ4, -1)
 		log.Errorf("opening Q4 file %s: %s", odsq4.pathQ4, err)
 		return nil
 	}
+	verifMark("q4.open", odsq4.pathQ4, 1)
 	return q4
 }
 
